@@ -301,6 +301,9 @@ class PhasePredictor(QTable):
         table = []
         with f:
             while (line := f.readline()) :
+                if not line.strip():
+                    # Blank lines (e.g. at the end of the file) hold no entry.
+                    continue
                 psr, _, _, mjd_mid, dm, *_ = line.split()
                 rphase, f0, obs, span, ncoeff, freq, *_ = f.readline().split()
                 # The reference phase is negative before the reference epoch.
